@@ -31,8 +31,9 @@ func pkgPath(rel string) string {
 }
 
 func recvNamed(t types.Type) *types.Named {
+	t = types.Unalias(t)
 	if p, ok := t.(*types.Pointer); ok {
-		t = p.Elem()
+		t = types.Unalias(p.Elem())
 	}
 	n, _ := t.(*types.Named)
 	return n
@@ -489,3 +490,33 @@ func FieldPathEnds(v ssa.Value, names ...string) bool {
 
 // StripConv removes interface/type conversions around a value.
 func StripConv(v ssa.Value) ssa.Value { return stripConv(v) }
+
+// StoreOp matches a call of SessionStore.<method> on the store returned by the accessor function named accessor
+// (e.g. r.oauthCodeStore().Put(...)).
+func StoreOp(accessor, method string) Callee {
+	return Callee{Desc: accessor + "()." + method, M: func(cc *ssa.CallCommon) bool {
+		if !cc.IsInvoke() || cc.Method == nil || cc.Method.Name() != method {
+			return false
+		}
+		c, ok := stripConv(cc.Value).(*ssa.Call)
+		if !ok {
+			return false
+		}
+		f := c.Common().StaticCallee()
+		return f != nil && f.Name() == accessor
+	}}
+}
+
+// ConstArg returns an ArgOK function requiring the idx-th declared argument to be the given bool constant.
+func ConstBoolArg(idx int, want bool, what string) func(ci ssa.CallInstruction) string {
+	return func(ci ssa.CallInstruction) string {
+		a := CallArg(ci.Common(), idx)
+		if a == nil {
+			return "missing argument"
+		}
+		if b, ok := ConstBool(a); !ok || b != want {
+			return what
+		}
+		return ""
+	}
+}
